@@ -30,6 +30,14 @@ def main():
         if os.path.exists(path):
             mod = importlib.import_module(f"sa.rules.{pid.lower()}")
         if mod is not None and hasattr(mod, "rules") and pid not in NOT_APPLICABLE:
+            # rules added after the level text was written (mostly because of seeded changes, DESIGN.md section 10.2) are appended with the title they run under
+            import re
+            from sa import core
+            _st, _ctx, _err = core.run_property(pid, mod.rules, "/repo", "quick")
+            named = set(re.findall(r"\(?(R\d+[a-z]?)\)?", mod.LEVEL_TEXT))
+            later = [(rid, txt) for rid, txt in sorted(_ctx.rule_text.items(), key=lambda kv: (len(kv[0]), kv[0])) if rid.split(".")[1] not in named] if _ctx is not None else []
+            level_text = mod.LEVEL_TEXT + ((" Further rules (added while testing the checks against seeded changes and mutants, DESIGN.md section 10.2): "
+                                            + "; ".join(f"({rid.split('.')[1]}) {txt}" for rid, txt in later) + ".") if later else "")
             checks.append({
                 "property_id": pid,
                 "quick_cmd": f"/venv/bin/python /verif/sa/check.py {pid} --tier quick",
@@ -37,7 +45,7 @@ def main():
                 "evidence_file": f"/verif/evidence/{pid}.json",
                 "replay_cmd_template": f"/venv/bin/python /verif/sa/check.py {pid} --replay {{path}}",
                 "engine": "sa",
-                "level_claimed": {"category": "other", "text": mod.LEVEL_TEXT, "design_ref": f"DESIGN.md section 5 / {pid}"},
+                "level_claimed": {"category": "other", "text": level_text, "design_ref": f"DESIGN.md section 5 / {pid}"},
                 "level_note": getattr(mod, "LEVEL_NOTE", "Trusted: CPython ast, the semantics tables for torch/pandas/numpy calls listed in the evidence; "
                                                        "necessary conditions only - the undecided clauses are named in the level text."),
                 "technique": getattr(mod, "TECHNIQUE", TECH_DEFAULT),
